@@ -112,6 +112,11 @@ func judge(c Case, w *vkit.W) {
 		}
 		out("MarshalText", string(mt), ext)
 		w.RetainBytes(c, "MarshalText", mt, ext)
+		if c.Full { // the returned bytes belong to the caller
+			if mt2, err := orig.MarshalText(); err == nil {
+				w.Owned(c, "MarshalText", mt2, ext, orig.MarshalText)
+			}
+		}
 		str := orig.String()
 		out("String", str, ext)
 		w.Retain(c, "String", str, ext)
@@ -119,6 +124,11 @@ func judge(c Case, w *vkit.W) {
 	if c.Full {
 		pb, _ := date.DefaultFormatter([]byte("x="), orig, f)
 		out("DefaultFormatter(prefix)", string(pb), "x="+want)
+		pb, _ = date.DefaultFormatter(append(make([]byte, 0, 64), "date="...), orig, f) // a prefix with room behind it
+		out("DefaultFormatter(prefix with spare capacity)", string(pb), "date="+want)
+		if b2, err := date.DefaultFormatter(nil, orig, f); err == nil {
+			w.Owned(c, "DefaultFormatter(nil)", b2, want, func() ([]byte, error) { return date.DefaultFormatter(nil, orig, f) })
+		}
 		if c.Basic {
 			out("Sprintf(%b)", fmt.Sprintf("%b", orig), want)
 		} else {
